@@ -63,6 +63,10 @@ type Scenario struct {
 	SlowFSM                bool // FSM applications are granted one by one by the environment (after scripted steps, before timers)
 	HBFastPath             bool // heartbeats are handed to the registered heartbeat handler on a transport thread (as NetworkTransport does)
 	Liveness               bool // at the end of the run every call must have resolved if it was issued long ago (virtual time and events)
+	// GiveUpAt/GiveUpTo: when the script has not reached step GiveUpTo after GiveUpAt events (a deviation made a
+	// guard unsatisfiable, or the implementation is stuck), the steps in between are skipped
+	GiveUpAt int
+	GiveUpTo string
 	Fine                   bool // branch on thread steps (preemption bounded)
 	RCL                    bool // RestoreCommittedLogs
 	NoStoreFaultBeforeStep int  // store faults only count from this script position on
@@ -700,6 +704,14 @@ func (w *World) envOptions() []envOpt {
 		}
 	}
 	w.pruneLive()
+	if w.sc.GiveUpAt > 0 && w.events >= w.sc.GiveUpAt {
+		for i, st := range w.sc.Steps {
+			if st.Name == w.sc.GiveUpTo && w.stepPos < i {
+				w.logf("script stalled at step %s after %d events: skipping to %s", w.sc.Steps[w.stepPos].Name, w.events, st.Name)
+				w.stepPos = i
+			}
+		}
+	}
 	// 0. urgent scripted step
 	if w.stepPos < len(w.sc.Steps) && w.sc.Steps[w.stepPos].Urgent {
 		st := w.sc.Steps[w.stepPos]
